@@ -19,13 +19,13 @@ Fixpoint cache_ok (s : scope) (c : cst) {struct s} : Prop :=
   | SMapped o m =>
       (forall x v, lookup (c_cache c) x = Some v -> pget (SMapped o m) x = Ok v)
       /\ (forall d, c_asd c = Some d -> pasd (SMapped o m) = Ok d)
-      /\ (forall ks, c_vc c = Some ks -> pvol (SMapped o m) = Ok ks)
+      /\ (forall ks, c_vc c = Some ks -> pvolx (SMapped o m) = Ok ks)
       /\ cache_ok o (kid0 c)
   | SRange i n v =>
       (forall d, c_asd c = Some d -> pasd (SRange i n v) = Ok d) /\ cache_ok i (kid0 c)
   | SJoint l =>
       (forall d, c_asd c = Some d -> pasd (SJoint l) = Ok d)
-      /\ (forall ks, c_vc c = Some ks -> pvol (SJoint l) = Ok ks)
+      /\ (forall ks, c_vc c = Some ks -> pvolx (SJoint l) = Ok ks)
       /\ (fix all (l : list (ident * scope)) (ks : list cst) : Prop :=
             match l with
             | [] => True
@@ -36,7 +36,7 @@ Fixpoint cache_ok (s : scope) (c : cst) {struct s} : Prop :=
 Lemma cache_ok_joint l c :
   cache_ok (SJoint l) c <->
   (forall d, c_asd c = Some d -> pasd (SJoint l) = Ok d)
-  /\ (forall ks, c_vc c = Some ks -> pvol (SJoint l) = Ok ks)
+  /\ (forall ks, c_vc c = Some ks -> pvolx (SJoint l) = Ok ks)
   /\ kids_ok cache_ok l (c_kids c).
 Proof.
   cbn [cache_ok]. generalize (c_kids c). intros ks.
@@ -81,8 +81,8 @@ Lemma collect_refines I g pg iv : refines I g pg ->
 Proof.
   intros Hr. induction m as [|[p e] m IH]; intros c acc Hc; cbn [collect pcollect].
   - auto.
-  - destruct (existsb (fun y => mem y iv) (vars e)).
-    + destruct (fold_get_refines I g pg Hr (filter (fun y => negb (mem y iv)) (vars e)) c [] Hc) as [E1 E2].
+  - destruct (existsb (fun y => is_some (lookup iv y)) (vars e)).
+    + destruct (fold_get_refines I g pg Hr (filter (fun y => negb (is_some (lookup iv y))) (vars e)) c [] Hc) as [E1 E2].
       destruct (fold_get g _ c []) as [r c']. cbn in E1, E2. subst r.
       destruct (pfold pg _ []); cbn; auto.
     + apply IH; auto.
@@ -251,23 +251,25 @@ Proof.
 Qed.
 
 (* ---------------------------------------------------------------- get_volatile_parameters *)
-Definition vol_joint :=
-  fix go (l : list (ident * scope)) (ks : list cst) (acc : list ident) : result (list ident) * list cst :=
+Definition volx_joint :=
+  fix go (l : list (ident * scope)) (ks : list cst) (acc : list (ident * expr))
+    : result (list (ident * expr)) * list cst :=
     match l with
     | [] => (Ok acc, ks)
     | (x, sub) :: l' =>
-        let '(r, k') := vol sub (hd cempty ks) in
+        let '(r, k') := volx sub (hd cempty ks) in
         match r with
-        | Ok iv => let '(r2, ks2) := go l' (tl ks) (if mem x iv then acc ++ [x] else acc) in (r2, k' :: ks2)
+        | Ok iv => let '(r2, ks2) := go l' (tl ks) (match lookup iv x with Some e => dict_set acc x e | None => acc end) in
+                   (r2, k' :: ks2)
         | Err e => (Err e, k' :: tl ks)
         end
     end.
 
-Lemma vol_joint_eq l c :
-  vol (SJoint l) c =
+Lemma volx_joint_eq l c :
+  volx (SJoint l) c =
   match c_vc c with
   | Some ks => (Ok ks, c)
-  | None => let '(r, ks) := vol_joint l (c_kids c) [] in
+  | None => let '(r, ks) := volx_joint l (c_kids c) [] in
             match r with
             | Ok vs => (Ok vs, CNode (c_cache c) (c_asd c) (Some vs) ks)
             | Err e => (Err e, set_kids c ks)
@@ -275,53 +277,68 @@ Lemma vol_joint_eq l c :
   end.
 Proof. reflexivity. Qed.
 
-Lemma vol_refines : forall s c, cache_ok s c -> fst (vol s c) = pvol s /\ cache_ok s (snd (vol s c)).
+(* self._scope[variable] from inside the MappedScope object *)
+Lemma get_outer_refines o m : refines (cache_ok (SMapped o m)) (get_outer o) (pget o).
+Proof.
+  intros c x (Hca & Hasd & Hvc & Hko). unfold get_outer.
+  destruct (get_refines o (kid0 c) x Hko) as [E1 E2]. destruct (get o (kid0 c) x) as [r co]. cbn [fst snd] in *.
+  split; [exact E1|]. cbn. repeat split; auto.
+Qed.
+
+Lemma volx_refines : forall s c, cache_ok s c -> fst (volx s c) = pvolx s /\ cache_ok s (snd (volx s c)).
 Proof.
   induction s using scope_ind'; intros c Hc.
   - cbn. auto.
   - pose proof Hc as (Hca & Hasd & Hvc & Hko).
     assert (forall co, cache_ok s co -> cache_ok (SMapped s m) (set_kid0 c co)) as Hset
       by (intros co0 Hco0; cbn; repeat split; auto).
-    cbn [vol]. destruct (c_vc c) as [ks|] eqn:Ev.
+    cbn [volx]. destruct (c_vc c) as [ks|] eqn:Ev.
     + cbn. split; [symmetry; auto|exact Hc].
     + destruct (IHs (kid0 c) Hko) as [E1 E2].
-      destruct (vol s (kid0 c)) as [riv co]. cbn [fst snd] in E1, E2. subst riv.
+      destruct (volx s (kid0 c)) as [riv co]. cbn [fst snd] in E1, E2. subst riv.
       pose proof (Hset co E2) as Hc1.
-      cbn [pvol]. destruct (pvol s) as [iv|] eqn:Ep; [|cbn; auto].
+      cbn [pvolx]. destruct (pvolx s) as [iv|] eqn:Ep; [|cbn; auto].
       destruct iv as [|a iv'].
       * cbn [fst snd]. split; [reflexivity|]. destruct Hc1 as (H1 & H2 & H3 & H4).
         cbn [cache_ok set_vc c_cache c_asd c_vc kid0 c_kids]. repeat split; auto.
-        intros ks Hks. injection Hks as <-. cbn [pvol]. now rewrite Ep.
-      * destruct (collect_refines _ _ _ (a :: iv') (get_refines (SMapped s m)) m _ (a :: iv') Hc1) as [F1 F2].
-        destruct (collect (get (SMapped s m)) (a :: iv') m (set_kid0 c co) (a :: iv')) as [r c2].
+        intros ks Hks. injection Hks as <-. cbn [pvolx]. now rewrite Ep.
+      * destruct (collect_refines _ _ _ (a :: iv') (get_outer_refines s m) m _ (a :: iv') Hc1) as [F1 F2].
+        destruct (collect (get_outer s) (a :: iv') m (set_kid0 c co) (a :: iv')) as [r c2].
         cbn [fst snd] in F1, F2. subst r.
-        destruct (pcollect (pget (SMapped s m)) (a :: iv') m (a :: iv')) as [ks|] eqn:Ec; cbn [fst snd]; [|auto].
+        destruct (pcollect (pget s) (a :: iv') m (a :: iv')) as [ks|] eqn:Ec; cbn [fst snd]; [|auto].
         split; [reflexivity|]. destruct F2 as (H1 & H2 & H3 & H4).
         cbn [cache_ok set_vc c_cache c_asd c_vc kid0 c_kids]. repeat split; auto.
-        intros ks' Hks. injection Hks as <-. cbn [pvol]. rewrite Ep. exact Ec.
+        intros ks' Hks. injection Hks as <-. cbn [pvolx]. rewrite Ep. exact Ec.
   - destruct Hc as (Hasd & Hki). destruct (IHs (kid0 c) Hki) as [E1 E2].
-    cbn [vol pvol]. destruct (vol s (kid0 c)) as [r ci]. cbn in *. subst r. auto.
+    cbn [volx pvolx]. destruct (volx s (kid0 c)) as [r ci]. cbn in *. subst r. auto.
   - pose proof Hc as Hc'. apply cache_ok_joint in Hc'. destruct Hc' as (Hasd & Hvc & Hk).
-    rewrite vol_joint_eq. destruct (c_vc c) as [ks|] eqn:Ev.
+    rewrite volx_joint_eq. destruct (c_vc c) as [ks|] eqn:Ev.
     + cbn. split; [symmetry; auto|exact Hc].
-    + change (pvol (SJoint l)) with (pvol_joint l []).
+    + change (pvolx (SJoint l)) with (pvolx_joint l []).
       assert (forall ks acc, kids_ok cache_ok l ks ->
-                fst (vol_joint l ks acc) = pvol_joint l acc /\ kids_ok cache_ok l (snd (vol_joint l ks acc))) as Hl.
+                fst (volx_joint l ks acc) = pvolx_joint l acc /\ kids_ok cache_ok l (snd (volx_joint l ks acc))) as Hl.
       { clear Hk Hasd Hvc Hc. induction H as [|[y sub] l Hs Hl IH]; intros ks acc Hks.
         - cbn. auto.
-        - destruct Hks as [Hk1 Hk2]. cbn [vol_joint pvol_joint]. cbn [snd] in Hs.
+        - destruct Hks as [Hk1 Hk2]. cbn [volx_joint pvolx_joint]. cbn [snd] in Hs.
           destruct (Hs (hd cempty ks) Hk1) as [E1 E2].
-          destruct (vol sub (hd cempty ks)) as [r k']. cbn [fst snd] in E1, E2. subst r.
-          destruct (pvol sub) as [iv|]; [|cbn; auto].
-          destruct (IH (tl ks) (if mem y iv then acc ++ [y] else acc) Hk2) as [F1 F2].
-          destruct (vol_joint l (tl ks) (if mem y iv then acc ++ [y] else acc)) as [r2 ks2]. cbn in *. auto. }
+          destruct (volx sub (hd cempty ks)) as [r k']. cbn [fst snd] in E1, E2. subst r.
+          destruct (pvolx sub) as [iv|]; [|cbn; auto].
+          destruct (IH (tl ks) (match lookup iv y with Some e => dict_set acc y e | None => acc end) Hk2) as [F1 F2].
+          destruct (volx_joint l (tl ks) (match lookup iv y with Some e => dict_set acc y e | None => acc end))
+            as [r2 ks2]. cbn in *. auto. }
       destruct (Hl (c_kids c) [] Hk) as [E1 E2].
-      destruct (vol_joint l (c_kids c) []) as [r ks]. cbn [fst snd] in E1, E2. subst r.
-      destruct (pvol_joint l []) as [vs|] eqn:Ep; cbn [fst snd].
+      destruct (volx_joint l (c_kids c) []) as [r ks]. cbn [fst snd] in E1, E2. subst r.
+      destruct (pvolx_joint l []) as [vs|] eqn:Ep; cbn [fst snd].
       * split; [reflexivity|]. apply cache_ok_joint. cbn [c_asd c_vc c_kids]. repeat split; auto.
         intros ks' Hks. injection Hks as <-. exact Ep.
       * split; [reflexivity|]. apply cache_ok_joint. cbn [set_kids c_asd c_vc c_kids]. repeat split; auto.
         rewrite Ev. discriminate.
+Qed.
+
+Lemma vol_refines : forall s c, cache_ok s c -> fst (vol s c) = pvol s /\ cache_ok s (snd (vol s c)).
+Proof.
+  intros s c Hc. unfold vol, pvol. destruct (volx_refines s c Hc) as [E1 E2].
+  destruct (volx s c) as [r c']. cbn [fst snd] in *. subst r. auto.
 Qed.
 
 (* ---------------------------------------------------------------- change_constants *)
@@ -366,6 +383,7 @@ Proof.
     split; [reflexivity|]. split; [reflexivity|].
     rewrite <- (proj1 (cc_scope_rebuild s c nc)). apply cc_cache_ok. exact Hc.
   - cbn. auto.
+  - destruct (volx_refines s c Hc) as [E1 E2]. destruct (volx s c). cbn in *. subst. auto.
 Qed.
 
 Lemma run_refines : forall ops s c, cache_ok s c -> run (s, c) ops = prun s ops.
